@@ -1328,16 +1328,19 @@ class FakedWBEMConnection(WBEMConnection):
         Return the CIMParameter object for an input parameter of InvokeMethod
         that was specified as name and value.
 
-        A value of None, an empty array and an array whose first item is
-        None do not tell their CIM type. WBEMConnection.InvokeMethod() sends
+        A value of None, an empty array and an array that has only None
+        items do not tell their CIM type. WBEMConnection.InvokeMethod() sends
         them to the server without type, so they get the type the method
-        declares for the parameter, as a server would do.
+        declares for the parameter, as a server would do. The type of any
+        other array is the type of its first item that is not None, as in
+        WBEMConnection.InvokeMethod().
         """
-        untyped = pvalue is None or (
-            isinstance(pvalue, (list, tuple)) and
-            (not pvalue or pvalue[0] is None))
-        if not untyped:
-            return CIMParameter(pname, cimtype(pvalue), value=pvalue)
+        if isinstance(pvalue, (list, tuple)):
+            typed_items = [item for item in pvalue if item is not None]
+        else:
+            typed_items = [pvalue] if pvalue is not None else []
+        if typed_items:
+            return CIMParameter(pname, cimtype(typed_items[0]), value=pvalue)
         try:
             class_store = self.cimrepository.get_class_store(
                 localobject.namespace)
